@@ -1,6 +1,7 @@
 //! C02 soundness against invalid witnesses — fault in prover memory (F10).
 use super::*;
 use crate::faults::{self, WFault};
+use ark_bulletproofs::r1cs::R1CSProof;
 use crate::with_curve;
 use serde_json::json;
 
@@ -87,6 +88,61 @@ pub fn run_case<G: AffineRepr>(run: u64, case: &Case, st: &mut Stats) {
                 format!("fault left the assignment satisfying, yet rejected: {}", v.text),
             );
             return;
+        }
+    }
+    // the same demand through batch verification: alone, and (for constant
+    // faults) paired with the complementary error -d, whose residual would
+    // cancel under equal batch weights
+    if !pr.satisfied && run % 2 == 0 {
+        use ark_bulletproofs::r1cs::batch_verify;
+        use merlin::Transcript;
+        type F<G> = <G as AffineRepr>::ScalarField;
+        let mut members: Vec<(Statement, Vec<G>, R1CSProof<G>)> = vec![];
+        if let Ok(p) = R1CSProof::<G>::from_bytes(&pr.bytes) {
+            members.push((fc.st.clone(), pr.commitments.clone(), p));
+        }
+        if let WFault::Constant { at, d } = &case.fault {
+            let nd = S::of(&(-d.f::<F<G>>()));
+            if let Some(st2) = faults::apply(&case.base.st, &WFault::Constant { at: *at, d: nd }, n1) {
+                let mut c2 = case.base.clone();
+                c2.st = st2;
+                if let Ok((pr2, _)) = prove_case::<G>(&c2, false) {
+                    if let Ok(p2) = R1CSProof::<G>::from_bytes(&pr2.bytes) {
+                        if !pr2.satisfied {
+                            members.push((c2.st.clone(), pr2.commitments.clone(), p2));
+                            st.probe("batch-pair-with-complementary-error");
+                        }
+                    }
+                }
+            }
+        }
+        let bp = gens_with_history::<G>(&case.base.cap_v, 1);
+        let pc = pc_gens_for::<G>(&fc.st.bases);
+        let mut ts: Vec<Transcript> = members.iter().map(|m| Transcript::new(TLABELS[m.0.tlabel])).collect();
+        let mut brng = CountingRng::new(case.base.ext_seed ^ 0xb47c, RngMode::Normal);
+        let r = catch(|| {
+            let mut inst = vec![];
+            for (m, t) in members.iter().zip(ts.iter_mut()) {
+                let (v, _) = build_verifier::<G>(&m.0, &m.1, t);
+                inst.push((v, &m.2));
+            }
+            batch_verify(&mut brng, inst, &pc, &bp)
+        });
+        st.steps += 1;
+        match r {
+            Err(m) => {
+                fail(st, "no-panic", format!("batch_verify panicked: {}", m));
+                return;
+            }
+            Ok(Ok(())) if !members.is_empty() => {
+                fail(
+                    st,
+                    "unsatisfied-rejected-in-batch",
+                    format!("a batch of {} proofs emitted for violated constraints (errors +d / -d on the same constant) was ACCEPTED by batch_verify; fault {:?}", members.len(), case.fault),
+                );
+                return;
+            }
+            _ => st.probe("batch-leg-rejected"),
         }
     }
     st.log_digest(run, &pr.bytes);
